@@ -223,6 +223,23 @@ RefUint ref_uint(const std::string &s)
   return {ACCEPT, static_cast<uint32_t>(val)};
 }
 
+// open-finding shape F21: "-<m>" where strtoull's modulo-2^64 negation lands within 32 bits
+bool is_negative_wraparound(const std::string &s)
+{
+  Stripped st = strip(s);
+  if (st.b - st.a < 2 || s[st.a] != '-')
+    return false;
+  unsigned __int128 m = 0;
+  for (size_t i = st.a + 1; i < st.b; ++i)
+  {
+    if (!is_digit(static_cast<unsigned char>(s[i])) || m > (static_cast<unsigned __int128>(1) << 70))
+      return false;
+    m = m * 10 + static_cast<unsigned>(s[i] - '0');
+  }
+  const unsigned __int128 two64 = static_cast<unsigned __int128>(1) << 64;
+  return m < two64 && m + 0xFFFFFFFFull >= two64;
+}
+
 struct RefDur
 {
   Verdict v;
@@ -281,6 +298,31 @@ RefDur ref_duration(const std::string &s)
   if (plus || neg || st.lead || st.trail)
     return {EITHER, total};
   return {ACCEPT, total};
+}
+
+// open-finding shape F16: the digit run (after blanks) exceeds the duration's 64-bit count, or the
+// count times a recognised unit does
+bool is_duration_overflow(const std::string &s)
+{
+  size_t i = 0;
+  while (i < s.size() && is_cspace(static_cast<unsigned char>(s[i])))
+    ++i;
+  const unsigned __int128 kMax = static_cast<unsigned __int128>(std::numeric_limits<int64_t>::max());
+  unsigned __int128 n          = 0;
+  size_t k                     = i;
+  for (; k < s.size() && is_digit(static_cast<unsigned char>(s[k])); ++k)
+  {
+    n = n * 10 + static_cast<unsigned>(s[k] - '0');
+    if (n > kMax)
+      return true;
+  }
+  if (k == i)
+    return false;
+  std::string unit = s.substr(k);
+  for (auto &u : kUnits)
+    if (unit == u.name && n * static_cast<unsigned __int128>(u.ns) > kMax)
+      return true;
+  return false;
 }
 
 struct RefFloat
@@ -852,17 +894,24 @@ VH_TARGET(env_readers, 1,
   if (vh::excluded("F16") && s.set)
   {
     // open finding F16: digit strings that overflow the duration arithmetic are undefined behaviour
-    RefDur r    = ref_duration(s.text);
-    Stripped st = strip(s.text);
-    size_t nd   = 0;
-    for (size_t i = st.a; i < st.b && nd < 64; ++i)
-      nd += is_digit(static_cast<unsigned char>(s.text[i])) ? 1 : 0;
-    if (r.v == REJECT && nd >= 10)
+    if (is_duration_overflow(s.text))
     {
       vh::count_excluded("F16");
       s.text = "5s";
       g.cls  = "excluded-F16";
     }
+  }
+  if (vh::excluded("F20") && amb != 0)
+  {
+    // open finding F20: a stale errno changes the answer of the numeric readers
+    vh::count_excluded("F20");
+    amb = 0;
+  }
+  if (vh::excluded("F21") && s.set && is_negative_wraparound(s.text))
+  {
+    vh::count_excluded("F21");
+    s.text = "-5";
+    g.cls  = "excluded-F21";
   }
   c.note(std::string("focus=") + readers[focus] + " class=" + g.cls + " errno=" +
          std::to_string(ambient_errno(amb)) + " value=" + (s.set ? "'" + vh::show(s.text.substr(0, 300)) + "'" : "<unset>") +
@@ -890,15 +939,21 @@ VH_TARGET(env_bytes, 1,
   unsigned mask = 31;
   if (vh::excluded("F16"))
   {
-    RefDur r  = ref_duration(s.text);
-    size_t nd = 0;
-    for (char ch : s.text)
-      nd += is_digit(static_cast<unsigned char>(ch)) ? 1 : 0;
-    if (r.v == REJECT && nd >= 10)
+    if (is_duration_overflow(s.text))
     {
       vh::count_excluded("F16");
       mask &= ~8u;
     }
+  }
+  if (vh::excluded("F20") && amb != 0)
+  {
+    vh::count_excluded("F20");
+    amb = 0;
+  }
+  if (vh::excluded("F21") && is_negative_wraparound(s.text))
+  {
+    vh::count_excluded("F21");
+    mask &= ~2u;
   }
   c.note("errno=" + std::to_string(ambient_errno(amb)) + " bytes(" + std::to_string(s.text.size()) +
          ")='" + vh::show(s.text.substr(0, 400)) + "'\n");
@@ -1303,6 +1358,27 @@ resource::ResourceAttributes build(const GenAttrs &g)
   return a;
 }
 
+// open-finding shape F22: Create with a non-string process.executable.name and no service.name
+void avoid_f22(GenAttrs &g)
+{
+  if (!vh::excluded("F22"))
+    return;
+  bool changed = false;
+  for (auto &s : g.specs)
+    if (s.key == "process.executable.name" && s.type != T_SV && s.type != T_CSTR)
+    {
+      s.type = T_SV;
+      s.strs.assign(1, "exe");
+      changed = true;
+    }
+  if (!changed)
+    return;
+  vh::count_excluded("F22");
+  g.model.clear();
+  for (auto &s : g.specs)
+    g.model[s.key] = canon_spec(s);
+}
+
 std::string gen_schema(vh::Reader &rd)
 {
   switch (rd.weighted({40, 20, 20, 10, 10}))
@@ -1490,7 +1566,7 @@ std::string pct_decode(const std::string &s)
   std::string o;
   for (size_t i = 0; i < s.size(); ++i)
   {
-    if (s[i] == '%' && i + 2 < s.size() + 0 && hexval(s[i + 1]) >= 0 && hexval(s[i + 2]) >= 0)
+    if (s[i] == '%' && i + 2 < s.size() && hexval(s[i + 1]) >= 0 && hexval(s[i + 2]) >= 0)
     {
       o.push_back(static_cast<char>(hexval(s[i + 1]) * 16 + hexval(s[i + 2])));
       i += 2;
@@ -1885,9 +1961,20 @@ void write_all(int fd, const std::string &s)
   }
 }
 
+// Shrinking re-runs the target thousands of times and every run here costs a fork: once a failing
+// case is known only this many further runs fork; later shrink candidates count as "not failing",
+// which merely ends the shrink search at the smallest failing case found so far.
+unsigned g_fork_failures = 0, g_runs_after_failure = 0;
+constexpr unsigned kShrinkRuns = 400;
+
 template <class Body>
 void in_child(vh::Case &c, Body body)
 {
+  if (g_fork_failures > 0 && ++g_runs_after_failure > kShrinkRuns)
+  {
+    c.tag("shrink-budget-skip");
+    return;
+  }
   int p[2];
   if (pipe(p) != 0)
   {
@@ -1978,9 +2065,13 @@ void in_child(vh::Case &c, Body body)
       done = true;
   }
   if (failed)
+  {
+    ++g_fork_failures;
     c.fail(msg);
+  }
   if (!done || !WIFEXITED(status) || WEXITSTATUS(status) != 0)
   {
+    ++g_fork_failures;
     std::string how = WIFSIGNALED(status) ? "killed by signal " + std::to_string(WTERMSIG(status))
                                           : "exit status " + std::to_string(WEXITSTATUS(status));
     c.fail("the child process running the case died before reporting (" + how +
@@ -2042,3 +2133,346 @@ bool create_matches(const SMap &got, const CreateModel &cm)
   return g == cm.want;
 }
 }  // namespace
+
+// ================================================================================================
+VH_TARGET(res_create, 3,
+          "a case is non-trivial when at least two of the three layers (SDK defaults, environment, "
+          "caller) define the same key, or no layer names the service (service.name has to be "
+          "synthesized); distinct = distinct (environment, caller maps, schema URLs) text")
+{
+  vh::Reader &rd = c.rd;
+  GenEnv g       = gen_env(rd);
+  unsigned amb   = static_cast<unsigned>(rd.weighted({7, 3}));
+  unsigned calls = 1 + rd.below(3);
+  std::vector<GenAttrs> callers;
+  std::vector<std::string> schemas;
+  for (unsigned j = 0; j < calls; ++j)
+  {
+    callers.push_back(gen_attrs(rd, 5, true));
+    avoid_f22(callers.back());
+    schemas.push_back(gen_schema(rd));
+  }
+  c.note(show_env(g.env) + " errno=" + std::to_string(ambient_errno(amb)) + "\n");
+  for (unsigned j = 0; j < calls; ++j)
+    c.note("Create(" + show_map(callers[j].model) + ", '" + vh::show(schemas[j]) + "')\n");
+  for (auto &t : g.tags)
+    c.tag(t);
+  std::set<RawMap> readings = env_readings(g.env);
+  {
+    // layers competing for a key, under the reading with the most attributes
+    const RawMap *big = &*readings.begin();
+    for (auto &m : readings)
+      if (m.size() > big->size())
+        big = &m;
+    static const char *defaults[] = {"telemetry.sdk.language", "telemetry.sdk.name", "telemetry.sdk.version"};
+    bool env_vs_default = false, caller_vs_env = false, caller_vs_default = false, synth = false;
+    for (auto d : defaults)
+      env_vs_default = env_vs_default || big->count(d);
+    for (auto &ga : callers)
+    {
+      for (auto &kv : ga.model)
+      {
+        caller_vs_env = caller_vs_env || big->count(kv.first);
+        for (auto d : defaults)
+          caller_vs_default = caller_vs_default || kv.first == d;
+      }
+      synth = synth || (!big->count("service.name") && !ga.model.count("service.name"));
+    }
+    if (env_vs_default)
+      c.tag("env-overrides-default");
+    if (caller_vs_env)
+      c.tag("caller-overrides-env");
+    if (caller_vs_default)
+      c.tag("caller-overrides-default");
+    if (synth)
+      c.tag("service-name-synthesized");
+    c.nontrivial = env_vs_default || caller_vs_env || caller_vs_default || synth;
+  }
+  in_child(c, [&]() {
+    quiet_sdk_log();
+    apply_env(g.env);
+    std::set<RawMap> alive = readings;
+    for (unsigned j = 0; j < calls; ++j)
+    {
+      resource::ResourceAttributes attrs = build(callers[j]);
+      errno                              = ambient_errno(amb);
+      resource::Resource r               = resource::Resource::Create(attrs, schemas[j]);
+      errno                              = 0;
+      SMap got                           = observe(r.GetAttributes());
+      VH_CHECK(c, got.count("service.name"), "Create #" << j << " has no service.name: " << show_map(got));
+      std::set<RawMap> still;
+      bool prefix_only = false, synthesized = false;
+      for (auto &m : alive)
+      {
+        CreateModel cm = create_model(m, callers[j]);
+        if (create_matches(got, cm))
+        {
+          still.insert(m);
+          prefix_only = cm.prefix_only;
+          synthesized = cm.synthesized;
+        }
+      }
+      if (still.empty())
+      {
+        CreateModel cm = create_model(*alive.begin(), callers[j]);
+        VH_CHECK(c, false, "Create #" << j << " with " << show_env(g.env) << " and caller "
+                                      << show_map(callers[j].model) << ": " << first_diff(got, cm.want)
+                                      << " (environment read as " << show_raw(*alive.begin()) << ", "
+                                      << alive.size() << " reading(s) allowed); got " << show_map(got));
+      }
+      alive = still;
+      if (synthesized)
+        c.tag(prefix_only ? "synth-with-non-string-exe-name"
+                          : got["service.name"].find("unknown_service:") != std::string::npos ? "synth-with-exe-name"
+                                                                                               : "synth-plain");
+      VH_CHECK(c, r.GetSchemaURL() == schemas[j], "Create(attrs, '" << vh::show(schemas[j]) << "') has schema URL '"
+                                                                    << vh::show(r.GetSchemaURL()) << "'");
+      VH_CHECK(c, observe(attrs) == callers[j].model, "Create changed the caller's attribute map");
+    }
+  });
+}
+
+// ================================================================================================
+namespace
+{
+namespace trace_api   = opentelemetry::trace;
+namespace trace_sdk   = opentelemetry::sdk::trace;
+namespace logs_api    = opentelemetry::logs;
+namespace logs_sdk    = opentelemetry::sdk::logs;
+namespace metrics_api = opentelemetry::metrics;
+namespace metrics_sdk = opentelemetry::sdk::metrics;
+
+class SpanSink : public trace_sdk::SpanExporter
+{
+public:
+  explicit SpanSink(std::shared_ptr<std::vector<std::unique_ptr<trace_sdk::SpanData>>> out) : out_(std::move(out)) {}
+  std::unique_ptr<trace_sdk::Recordable> MakeRecordable() noexcept override
+  {
+    return std::unique_ptr<trace_sdk::Recordable>(new trace_sdk::SpanData);
+  }
+  sdkc::ExportResult Export(const nostd::span<std::unique_ptr<trace_sdk::Recordable>> &spans) noexcept override
+  {
+    for (auto &s : spans)
+      out_->push_back(std::unique_ptr<trace_sdk::SpanData>(static_cast<trace_sdk::SpanData *>(s.release())));
+    return sdkc::ExportResult::kSuccess;
+  }
+  bool ForceFlush(std::chrono::microseconds) noexcept override { return true; }
+  bool Shutdown(std::chrono::microseconds) noexcept override { return true; }
+
+private:
+  std::shared_ptr<std::vector<std::unique_ptr<trace_sdk::SpanData>>> out_;
+};
+
+class LogSink : public logs_sdk::LogRecordExporter
+{
+public:
+  explicit LogSink(std::shared_ptr<std::vector<std::unique_ptr<logs_sdk::ReadWriteLogRecord>>> out)
+      : out_(std::move(out))
+  {}
+  std::unique_ptr<logs_sdk::Recordable> MakeRecordable() noexcept override
+  {
+    return std::unique_ptr<logs_sdk::Recordable>(new logs_sdk::ReadWriteLogRecord);
+  }
+  sdkc::ExportResult Export(const nostd::span<std::unique_ptr<logs_sdk::Recordable>> &recs) noexcept override
+  {
+    for (auto &r : recs)
+      out_->push_back(std::unique_ptr<logs_sdk::ReadWriteLogRecord>(
+          static_cast<logs_sdk::ReadWriteLogRecord *>(r.release())));
+    return sdkc::ExportResult::kSuccess;
+  }
+  bool ForceFlush(std::chrono::microseconds) noexcept override { return true; }
+  bool Shutdown(std::chrono::microseconds) noexcept override { return true; }
+
+private:
+  std::shared_ptr<std::vector<std::unique_ptr<logs_sdk::ReadWriteLogRecord>>> out_;
+};
+
+class PullReader : public metrics_sdk::MetricReader
+{
+public:
+  metrics_sdk::AggregationTemporality GetAggregationTemporality(
+      metrics_sdk::InstrumentType) const noexcept override
+  {
+    return metrics_sdk::AggregationTemporality::kCumulative;
+  }
+
+private:
+  bool OnForceFlush(std::chrono::microseconds) noexcept override { return true; }
+  bool OnShutDown(std::chrono::microseconds) noexcept override { return true; }
+};
+}  // namespace
+
+VH_TARGET(sdk_disabled, 2,
+          "a case is non-trivial when OTEL_SDK_DISABLED is set to a non-empty string (the boolean "
+          "grammar decides) ; distinct = distinct (setting, errno, environment, caller map) text")
+{
+  vh::Reader &rd = c.rd;
+  Setting dis;
+  std::string cls;
+  switch (rd.weighted({10, 5, 85}))
+  {
+    case 0:
+      cls = "unset";
+      break;
+    case 1:
+      dis.set = true;
+      cls     = "empty";
+      break;
+    default:
+    {
+      GenStr gs = gen_bool_str(rd);
+      dis.set   = true;
+      dis.text  = gs.s.substr(0, gs.s.find('\0'));
+      cls       = gs.cls;
+      break;
+    }
+  }
+  unsigned amb   = static_cast<unsigned>(rd.weighted({7, 3}));
+  GenEnv g       = gen_env(rd);
+  GenAttrs caller = gen_attrs(rd, 4, true);
+  avoid_f22(caller);
+  std::string schema = gen_schema(rd);
+  Verdict v  = REJECT;  // REJECT = must not be disabled
+  bool value = false;
+  if (dis.set && !dis.text.empty())
+  {
+    RefBool r = ref_bool(dis.text);
+    v         = r.v;
+    value     = r.value;
+  }
+  // ACCEPT+true: must be disabled; ACCEPT+false / REJECT / absent: must be enabled; EITHER+true: open
+  int expect = (v == ACCEPT && value) ? 1 : (v == EITHER && value) ? -1 : 0;
+  c.note("OTEL_SDK_DISABLED=" + (dis.set ? "'" + vh::show(dis.text) + "'" : std::string("<unset>")) +
+         " errno=" + std::to_string(ambient_errno(amb)) + " " + show_env(g.env) + "\ncaller=" +
+         show_map(caller.model) + " schema='" + vh::show(schema) + "'\n");
+  c.tag("disabled/" + cls);
+  c.tag(expect == 1 ? "expect-disabled" : expect == 0 ? "expect-enabled" : "expect-either");
+  c.nontrivial = dis.set && !dis.text.empty();
+  std::set<RawMap> readings = env_readings(g.env);
+
+  in_child(c, [&]() {
+    quiet_sdk_log();
+    apply_env(g.env);
+    put_env("OTEL_SDK_DISABLED", dis);
+    resource::Resource res = resource::Resource::Create(build(caller), schema);
+    SMap want              = observe(res.GetAttributes());
+    {
+      bool ok = false;
+      for (auto &m : readings)
+        ok = ok || create_matches(want, create_model(m, caller));
+      VH_CHECK(c, ok, "Create with " << show_env(g.env) << " and caller " << show_map(caller.model) << " gave "
+                                     << show_map(want));
+    }
+    auto check_resource = [&](const resource::Resource &seen, const resource::Resource &of_provider,
+                              const char *what) {
+      VH_CHECK(c, &seen == &of_provider, what << " does not reference its provider's resource object");
+      VH_CHECK(c, observe(seen.GetAttributes()) == want && seen.GetSchemaURL() == schema,
+               what << " carries resource " << show_map(observe(seen.GetAttributes())) << " schema '"
+                    << vh::show(seen.GetSchemaURL()) << "', the provider was built with " << show_map(want)
+                    << " schema '" << vh::show(schema) << "'");
+    };
+    auto verdict = [&](bool installed, bool untouched, const char *what) {
+      VH_CHECK(c, installed || untouched, what << ": the global provider is neither the given one nor the previous no-op");
+      if (expect == 1)
+        VH_CHECK(c, untouched, what << ": OTEL_SDK_DISABLED='" << vh::show(dis.text)
+                                    << "' but the SDK provider was installed");
+      else if (expect == 0)
+        VH_CHECK(c, installed, what << ": OTEL_SDK_DISABLED=" << (dis.set ? "'" + vh::show(dis.text) + "'" : "<unset>")
+                                    << " (ambient errno " << ambient_errno(amb)
+                                    << ") is not 'true' but the SDK provider was not installed");
+    };
+    bool inst[3] = {false, false, false};
+    // ---- traces
+    {
+      auto sink   = std::make_shared<std::vector<std::unique_ptr<trace_sdk::SpanData>>>();
+      auto sdk_tp = new trace_sdk::TracerProvider(
+          std::unique_ptr<trace_sdk::SpanProcessor>(
+              new trace_sdk::SimpleSpanProcessor(std::unique_ptr<trace_sdk::SpanExporter>(new SpanSink(sink)))),
+          res);
+      nostd::shared_ptr<trace_api::TracerProvider> tp(sdk_tp);
+      auto before = trace_api::Provider::GetTracerProvider();
+      errno       = ambient_errno(amb);
+      trace_sdk::Provider::SetTracerProvider(tp);
+      errno      = 0;
+      auto after = trace_api::Provider::GetTracerProvider();
+      inst[0]    = after.get() == tp.get();
+      verdict(inst[0], after.get() == before.get(), "SetTracerProvider");
+      auto span  = after->GetTracer("c18")->StartSpan("s");
+      bool valid = span->GetContext().IsValid();
+      span->End();
+      if (inst[0])
+      {
+        VH_CHECK(c, valid && sink->size() == 1, "enabled: the span is " << (valid ? "valid" : "invalid") << " and "
+                                                                        << sink->size() << " span(s) were exported");
+        check_resource((*sink)[0]->GetResource(), sdk_tp->GetResource(), "the exported span");
+      }
+      else
+        VH_CHECK(c, !valid && sink->empty(), "disabled: a span started through the global provider is "
+                                                 << (valid ? "valid" : "invalid") << ", " << sink->size()
+                                                 << " span(s) reached the exporter");
+    }
+    // ---- logs
+    {
+      auto sink   = std::make_shared<std::vector<std::unique_ptr<logs_sdk::ReadWriteLogRecord>>>();
+      auto sdk_lp = new logs_sdk::LoggerProvider(
+          std::unique_ptr<logs_sdk::LogRecordProcessor>(new logs_sdk::SimpleLogRecordProcessor(
+              std::unique_ptr<logs_sdk::LogRecordExporter>(new LogSink(sink)))),
+          res);
+      nostd::shared_ptr<logs_api::LoggerProvider> lp(sdk_lp);
+      auto before = logs_api::Provider::GetLoggerProvider();
+      errno       = ambient_errno(amb);
+      logs_sdk::Provider::SetLoggerProvider(lp);
+      errno      = 0;
+      auto after = logs_api::Provider::GetLoggerProvider();
+      inst[1]    = after.get() == lp.get();
+      verdict(inst[1], after.get() == before.get(), "SetLoggerProvider");
+      after->GetLogger("c18", "c18lib")->EmitLogRecord(logs_api::Severity::kInfo, "body");
+      if (inst[1])
+      {
+        VH_CHECK(c, sink->size() == 1, "enabled: " << sink->size() << " log record(s) were exported");
+        check_resource((*sink)[0]->GetResource(), sdk_lp->GetResource(), "the exported log record");
+      }
+      else
+        VH_CHECK(c, sink->empty(), "disabled: " << sink->size() << " log record(s) reached the exporter");
+    }
+    // ---- metrics
+    {
+      auto sdk_mp = new metrics_sdk::MeterProvider(
+          std::unique_ptr<metrics_sdk::ViewRegistry>(new metrics_sdk::ViewRegistry()), res);
+      std::shared_ptr<PullReader> reader(new PullReader);
+      sdk_mp->AddMetricReader(reader);
+      nostd::shared_ptr<metrics_api::MeterProvider> mp(sdk_mp);
+      auto before = metrics_api::Provider::GetMeterProvider();
+      errno       = ambient_errno(amb);
+      metrics_sdk::Provider::SetMeterProvider(mp);
+      errno      = 0;
+      auto after = metrics_api::Provider::GetMeterProvider();
+      inst[2]    = after.get() == mp.get();
+      verdict(inst[2], after.get() == before.get(), "SetMeterProvider");
+      auto counter = after->GetMeter("c18")->CreateUInt64Counter("c18.counter");
+      counter->Add(3);
+      size_t batches = 0, metrics = 0;
+      const resource::Resource *seen = nullptr;
+      reader->Collect([&](metrics_sdk::ResourceMetrics &rm) {
+        ++batches;
+        seen = rm.resource_;
+        for (auto &sm : rm.scope_metric_data_)
+          metrics += sm.metric_data_.size();
+        return true;
+      });
+      if (inst[2])
+      {
+        VH_CHECK(c, batches == 1 && metrics == 1 && seen != nullptr,
+                 "enabled: Collect delivered " << batches << " batch(es) with " << metrics << " metric(s)");
+        check_resource(*seen, sdk_mp->GetResource(), "the collected metric batch");
+      }
+      else
+        VH_CHECK(c, metrics == 0, "disabled: " << metrics << " metric(s) were collected");
+    }
+    VH_CHECK(c, inst[0] == inst[1] && inst[1] == inst[2],
+             "the three signals disagree about OTEL_SDK_DISABLED='" << vh::show(dis.text) << "': traces "
+                                                                    << inst[0] << " logs " << inst[1]
+                                                                    << " metrics " << inst[2]);
+    c.tag(inst[0] ? "observed-enabled" : "observed-disabled");
+  });
+}
